@@ -196,8 +196,13 @@ let c17 h zh tys vals =
   let t = ty_of tys and v = val_of vals in
   match from_val zh t v with
   | OK n ->
-    Printf.sprintf "ro=%s ix=%s get=%s" (show_steps h (ro_iter t n (nat_of_int 3)))
-      (show_steps h (ix_iter t n (nat_of_int 3))) (show_steps h (get_all t n))
+    let fv = match t with
+      | TContainer _ ->
+        let l = ro_iter t n O in
+        if List.exists (function IErr | IPanic -> true | _ -> false) l then "ERR" else show_steps h l
+      | _ -> "-" in
+    Printf.sprintf "ro=%s ix=%s get=%s fv=%s" (show_steps h (ro_iter t n (nat_of_int 3)))
+      (show_steps h (ix_iter t n (nat_of_int 3))) (show_steps h (get_all t n)) fv
   | Err -> "ro=ERR ix=ERR get=ERR" | Panic -> "ro=PANIC ix=PANIC get=PANIC"
 
 (* ---- C19 ---- *)
